@@ -195,7 +195,8 @@
                  (bitwise-and
                   (arithmetic-shift node-bits (- (iset-start node) start))
                   (range->bits start end)))
-                (new-end (min end (+ start (integer-length bits)))))
+                ;; never beyond the end of the node itself
+                (new-end (min end (iset-end node) (+ start (integer-length bits)))))
            (%make-iset start new-end bits #f #f))))
    (else
     (%make-iset (max start (iset-start node))
